@@ -85,6 +85,17 @@ func runSelftest(args []string) int {
 		}
 		confirmed := strings.Contains(s, "VIOLATION") && !strings.Contains(s, "no-failing-input-found")
 		fmt.Printf("%-8s %-28s property=%s detected=%v confirmed-replay=%v expect=%q\n", status, m.name, m.meta.Property, detected, confirmed, m.meta.Expect)
+		// catch matrix: which obligations reported the change (kept under /verif/seeded for DESIGN.md section 10.4)
+		var obls []string
+		for _, ln := range strings.Split(s, "\n") {
+			if i := strings.Index(ln, "replay="); strings.HasPrefix(ln, "VIOLATION") && i > 0 {
+				f := strings.Fields(ln[i+len("replay="):])
+				if len(f) > 0 {
+					obls = append(obls, strings.TrimSuffix(filepath.Base(f[0]), ".json"))
+				}
+			}
+		}
+		recordCatch(filepath.Join(verifDir, "seeded", "catch_matrix.json"), m.name, m.meta.Property, detected, confirmed, obls)
 		if status != "ok" {
 			fmt.Println(indent(truncate(s, 1500)))
 		}
@@ -110,3 +121,18 @@ func runScript(p *Prog, name, tier string) *UnitResult {
 }
 
 var scripts = map[string]func(p *Prog, tier string) *UnitResult{}
+
+// recordCatch merges one selftest outcome into the catch matrix file (a development record, not read by any check).
+func recordCatch(path, name, prop string, detected, confirmed bool, obls []string) {
+	m := map[string]any{}
+	if b, err := os.ReadFile(path); err == nil {
+		json.Unmarshal(b, &m)
+	}
+	if len(obls) > 6 {
+		obls = append(obls[:6], fmt.Sprintf("... %d more", len(obls)-6))
+	}
+	m[name] = map[string]any{"property": prop, "detected": detected, "confirmed_replay": confirmed, "obligations": obls}
+	if b, err := json.MarshalIndent(m, "", " "); err == nil {
+		os.WriteFile(path, b, 0o644)
+	}
+}
